@@ -257,25 +257,32 @@ macro_rules! c07_family {
                     c == a && c == b && c == e && c.is_valid() && c.is_normalized() && c.to_raw_form().full_eq(&norm_fresh.to_raw_form()) && hash_stream_of(&c) == hash_stream_of(&a)
                 });
                 $l.check(cl == Ok(true), "dual-normalize_in_place", || (sig("normalize_in_place"), format!("normalize_in_place() on the dual of {} does not yield the dual of {} ({:?})", r.text(), want_norm.text(), cl)));
-                // "only if": a raw that differs in exactly one run length must give a different dual
-                let mut other = r.clone();
-                let runs = model::long_runs(&other.bh1);
-                if let Some(&(st, len)) = runs.first() {
-                    if len > 4 {
-                        other.bh1.remove(st);
-                    } else if other.bh1.len() < 64 {
-                        other.bh1.insert(st, r.bh1[st]);
-                    }
-                    if other != *r && other.normalized() == r.normalized() {
-                        $l.eval(1);
-                        let df = guard(|| {
-                            let o = <$D>::from_raw_form(&<$R as HashLike>::build(&other));
-                            (o != first, o.cmp(&first) != std::cmp::Ordering::Equal, first.cmp(&o) == o.cmp(&first).reverse(), *o.as_normalized() == *first.as_normalized())
-                        });
-                        $l.check(df == Ok((true, true, true, true)), "dual-injective", || {
-                            (sig("injective"), format!("raw hashes {} and {} (same normalization, one run length differs) must give unequal, consistently ordered duals: {:?}", r.text(), other.text(), df))
-                        });
-                        $l.count("same_normalization_pairs", 1);
+                // "only if": a raw that differs in exactly one run length (in block hash 1, and
+                // separately in block hash 2) must give a different dual
+                for which in 1..=2u8 {
+                    let mut other = r.clone();
+                    let cap = if which == 1 { 64 } else { <$R as HashLike>::S2 };
+                    let bh = if which == 1 { &mut other.bh1 } else { &mut other.bh2 };
+                    let runs = model::long_runs(bh);
+                    if let Some(&(st, len)) = runs.last() {
+                        let sym = bh[st];
+                        if len > 4 {
+                            bh.remove(st);
+                        } else if bh.len() < cap {
+                            bh.insert(st, sym);
+                        }
+                        if other != *r && other.normalized() == r.normalized() {
+                            $l.eval(1);
+                            let df = guard(|| {
+                                let o = <$D>::from_raw_form(&<$R as HashLike>::build(&other));
+                                let p = <$D>::from_bytes(other.text().as_bytes()).expect("dual parser refused a valid raw text");
+                                (o != first, first != o, p != first, o.cmp(&first) != std::cmp::Ordering::Equal, first.cmp(&o) == o.cmp(&first).reverse(), *o.as_normalized() == *first.as_normalized(), o == p)
+                            });
+                            $l.check(df == Ok((true, true, true, true, true, true, true)), "dual-injective", || {
+                                (sig(&format!("injective-bh{}", which)), format!("raw hashes {} and {} (same normalization, one run length in block hash {} differs) must give unequal, consistently ordered duals: {:?}", r.text(), other.text(), which, df))
+                            });
+                            $l.count("same_normalization_pairs", 1);
+                        }
                     }
                 }
             }
